@@ -72,6 +72,30 @@ def build(variant):
         o2 = pyrtl.Output(3, 'o2')
         o2 <<= r
         return pyrtl.working_block()
+    elif variant == 'pad_tie':
+        # equal-length names that differ only by where their leading zeros sit (registers, outputs, wires)
+        i0 = pyrtl.Input(2, 'i0')
+        acc = i0
+        for k, nm in enumerate(['s01_2', 's1_02', 't001_1', 't01_01', 't1_001', 'u0_10', 'u00_1']):
+            r = pyrtl.Register(2, nm, reset_value=k % 4)
+            r.next <<= acc
+            acc = acc ^ r
+        for k, nm in enumerate(['q01_2', 'q1_02', 'q001_1', 'q01_01']):
+            o = pyrtl.Output(2, nm)
+            o <<= acc + k
+        return pyrtl.working_block()
+    elif variant == 'blif_import':
+        # the same BLIF text imported in every process (several multi-bit vectors, flops, a sub-model)
+        import io
+        import contextlib
+        blif = (".model top\n.inputs clk a[0] a[1] a[2] b[0] b[1] c[0] c[1] c[2] c[3] s\n"
+                ".outputs y[0] y[1] z[0] z[1] z[2] q\n"
+                ".names a[0] b[0] y[0]\n11 1\n.names a[1] b[1] y[1]\n10 1\n01 1\n"
+                ".names c[0] a[2] z[0]\n1- 1\n-1 1\n.names c[1] c[2] z[1]\n11 1\n.names c[3] s z[2]\n10 1\n"
+                ".latch s q re clk 0\n.end\n")
+        with contextlib.redirect_stdout(io.StringIO()):
+            pyrtl.input_from_blif(blif)
+        return pyrtl.working_block()
     elif variant == 'memen_samedata':
         # write ports that share BOTH the enable wire and the data wire (a broadcast write)
         ra = pyrtl.Input(3, 'ra')
